@@ -250,6 +250,65 @@ func runC06(c *Ctx) {
 		}
 		checkAfter(star, "\"*\"", lit)
 		checkAfter(dstar, "\"**\"", lit, star)
+		// ... and the later alternatives ARE tried: the result of an earlier alternative's
+		// recursive walk is returned only when it found something
+		fallsThrough := func(l *ssa.Lookup, name string) {
+			var rec *ssa.Call
+			for _, ref := range *l.Referrers() {
+				if call, ok := ref.(*ssa.Call); ok && len(call.Call.Args) > 0 && call.Call.Args[0] == ssa.Value(l) {
+					rec = call
+				}
+			}
+			if rec == nil {
+				c.Unknown("C06.2", FuncName(findTarget), "falls-through:"+name, l.Pos(), "no recursive walk of this child found")
+				return
+			}
+			paths, ok := EnumPaths(rec.Block(), nil, IsReturn, 0)
+			if !ok {
+				c.Unknown("C06.2", FuncName(findTarget), "falls-through:"+name, l.Pos(), "too many paths")
+				return
+			}
+			good, n := true, 0
+			for _, cp := range paths {
+				ret := cp.End.(*ssa.Return)
+				returnsRec := false
+				for _, r := range ret.Results {
+					if ex, ok := cp.ResolveAt(r, ret.Block()).(*ssa.Extract); ok && ex.Tuple == ssa.Value(rec) {
+						returnsRec = true
+					}
+				}
+				if !returnsRec {
+					continue
+				}
+				n++
+				found := false
+				for cond, truth := range cp.Truth {
+					b, ok := cond.(*ssa.BinOp)
+					if !ok {
+						continue
+					}
+					notNil := b.Op == token.NEQ && truth || b.Op == token.EQL && !truth
+					if !notNil {
+						continue
+					}
+					side := b.X
+					if IsNilConst(b.X) {
+						side = b.Y
+					}
+					if ex, ok := side.(*ssa.Extract); ok && ex.Tuple == ssa.Value(rec) {
+						found = true
+					}
+				}
+				if !found {
+					good = false
+				}
+			}
+			c.Check(good && n > 0, "C06.2", FuncName(findTarget), "falls-through:"+name, rec.Pos(),
+				"the walk of this child is final only when it found a target or a method set; otherwise the next alternative is tried",
+				"the result of walking the "+name+" child is returned even when it found nothing: a sibling alternative (\"*\" after a literal, \"**\" after \"*\") that matches the request is never tried and an accepted binding is unreachable")
+		}
+		fallsThrough(lit, "literal")
+		fallsThrough(star, "\"*\"")
 	}
 
 	// ---------------------------------------------------------------- C06.3
